@@ -1,6 +1,8 @@
 import BlockModes.Lemmas.SpecBlock
 import BlockModes.Thm.C02
 import BlockModes.Thm.C03
+import BlockModes.Thm.C08
+import BlockModes.Thm.C09
 /-
   C15 — error propagation and data dependence match each mode's definition.
 
@@ -142,5 +144,70 @@ theorem causal_prefix_cbc (C : Cipher) (iv : Bytes) (m ext : List Bytes) :
     (cbcEnc C iv (m ++ ext)).1.take m.length = (cbcEnc C iv m).1 := by
   rw [cbcDec_append, cbcEnc_append]
   exact ⟨List.take_left' (cbcDec_length C m iv), List.take_left' (cbcEnc_length C m iv)⟩
+
+/-! ### CFB-8: the altered byte flips the same bits, the following block-size bytes may be garbled, then the
+    decryptor re-synchronises -/
+
+theorem cfb8Dec_state_length (C : Cipher) (m s : Bytes) (hs : 1 ≤ s.length) : (cfb8Dec C s m).2.length = s.length := by
+  rw [(C09.cfb8_chain_is_last_bytes C m s hs).2]; simp
+
+/-- the feedback register after `|mid| ≥ bs` further bytes is made of those bytes only. -/
+theorem cfb8Dec_state_forgets (C : Cipher) (mid s₁ s₂ : Bytes) (h1 : 1 ≤ s₁.length) (h12 : s₁.length = s₂.length)
+    (hm : s₁.length ≤ mid.length) : (cfb8Dec C s₁ mid).2 = (cfb8Dec C s₂ mid).2 := by
+  rw [(C09.cfb8_chain_is_last_bytes C mid s₁ h1).2, (C09.cfb8_chain_is_last_bytes C mid s₂ (by omega)).2]
+  obtain ⟨k, hk⟩ : ∃ k, mid.length = s₁.length + k := ⟨mid.length - s₁.length, by omega⟩
+  rw [hk, List.drop_append]
+  rw [h12, List.drop_append]
+  have e1 : s₁.drop (s₂.length + k) = [] := List.drop_of_length_le (by omega)
+  have e2 : s₂.drop (s₂.length + k) = [] := List.drop_of_length_le (by omega)
+  rw [e1, e2]
+
+/-- **CFB-8 error propagation**: ciphertext `a ‖ x ‖ mid ‖ rest` versus `a ‖ (x ⊕ δ) ‖ mid ‖ rest` with `|mid| ≥ bs`
+    (the register length): the plaintext bytes before position `|a|` are equal, byte `|a|` flips exactly `δ`, and
+    everything after the `|mid|` bytes that follow is equal again (re-synchronisation) — for any register contents,
+    any cipher, any block size ≥ 1. -/
+theorem cfb8_error_propagation (C : Cipher) (s a mid rest : Bytes) (x δ : UInt8) (hs : 1 ≤ s.length)
+    (hmid : s.length ≤ mid.length) :
+    let d  := (cfb8Dec C s (a ++ x :: (mid ++ rest))).1
+    let d' := (cfb8Dec C s (a ++ (x ^^^ δ) :: (mid ++ rest))).1
+    d'.take a.length = d.take a.length ∧
+    d'[a.length]? = (d[a.length]?).map (· ^^^ δ) ∧
+    d'.drop (a.length + 1 + mid.length) = d.drop (a.length + 1 + mid.length) := by
+  intro d d'
+  have hal : (cfb8Dec C s a).1.length = a.length := C08.cfb8Dec_length C a s
+  have hsa : (cfb8Dec C s a).2.length = s.length := cfb8Dec_state_length C a s hs
+  generalize hsa' : (cfb8Dec C s a).2 = sa at *
+  -- registers entering `mid`
+  have hl1 : (sa.drop 1 ++ [x]).length = s.length := by simp; omega
+  have hl2 : (sa.drop 1 ++ [x ^^^ δ]).length = s.length := by simp; omega
+  have hforget := cfb8Dec_state_forgets C mid (sa.drop 1 ++ [x]) (sa.drop 1 ++ [x ^^^ δ]) (by omega) (by omega) (by omega)
+  have hml1 : (cfb8Dec C (sa.drop 1 ++ [x]) mid).1.length = mid.length := C08.cfb8Dec_length C mid _
+  have hml2 : (cfb8Dec C (sa.drop 1 ++ [x ^^^ δ]) mid).1.length = mid.length := C08.cfb8Dec_length C mid _
+  have hd : d = (cfb8Dec C s a).1 ++ ((x ^^^ (C.enc sa).headD 0) ::
+      ((cfb8Dec C (sa.drop 1 ++ [x]) mid).1 ++ (cfb8Dec C (cfb8Dec C (sa.drop 1 ++ [x]) mid).2 rest).1)) := by
+    simp only [d, C08.cfb8Dec_append, hsa', cfb8Dec]
+  have hd' : d' = (cfb8Dec C s a).1 ++ (((x ^^^ δ) ^^^ (C.enc sa).headD 0) ::
+      ((cfb8Dec C (sa.drop 1 ++ [x ^^^ δ]) mid).1 ++ (cfb8Dec C (cfb8Dec C (sa.drop 1 ++ [x ^^^ δ]) mid).2 rest).1)) := by
+    simp only [d', C08.cfb8Dec_append, hsa', cfb8Dec]
+  refine ⟨?_, ?_, ?_⟩
+  · rw [hd, hd', List.take_left' hal, List.take_left' hal]
+  · rw [hd, hd', List.getElem?_append_right (by omega), List.getElem?_append_right (by omega), hal]
+    simp only [Nat.sub_self, List.getElem?_cons_zero, Option.map_some]
+    congr 1
+    rw [UInt8.xor_assoc, UInt8.xor_comm δ, ← UInt8.xor_assoc]
+  · have e : a.length + 1 + mid.length = (cfb8Dec C s a).1.length + (1 + mid.length) := by omega
+    have dl : ∀ (A B : Bytes) (n : Nat), (A ++ B).drop (A.length + n) = B.drop n := by
+      intro A B n; rw [← List.drop_drop, List.drop_left' rfl]
+    rw [hd, hd', e, dl, dl]
+    rw [show 1 + mid.length = mid.length + 1 by omega, List.drop_succ_cons, List.drop_succ_cons]
+    rw [List.drop_left' hml1, List.drop_left' hml2, hforget]
+
+/-- the same register argument for encryption-side causality: the ciphertext of a prefix does not depend on what
+    follows (CFB-8, CFB, PCBC, IGE, OFB — complements `causal_prefix_cbc`). -/
+theorem causal_prefix_cfb8 (C : Cipher) (s m ext : Bytes) :
+    (cfb8Dec C s (m ++ ext)).1.take m.length = (cfb8Dec C s m).1 ∧
+    (cfb8Enc C s (m ++ ext)).1.take m.length = (cfb8Enc C s m).1 := by
+  rw [C08.cfb8Dec_append, C08.cfb8Enc_append]
+  exact ⟨List.take_left' (C08.cfb8Dec_length C m s), List.take_left' (C08.cfb8Enc_length C m s)⟩
 
 end Thm.C15
